@@ -1,6 +1,5 @@
 (* C14 - the property theorems, assembled clause by clause from the per-generator files, with non-vacuity
-   examples.  Admissible parameters: grids/triangles nu, nv >= 2; torus M, m >= 3; sphere_uv n >= 1, L >= 3;
-   cylinder N >= 3; ring N >= 3 (K = N * n_cover >= 3), flat_ring K >= 1; chains n >= 1. *)
+   examples.  Admissible parameters = those the generated guards accept (`g_rejects p = false`, see all_rejects). *)
 From Coq Require Import ZArith List Bool Lia Reals.
 Import ListNotations.
 Require Import MV.Lib.Base MV.C14.Model MV.C14.Gen MV.C14.ProofsLib.
@@ -10,6 +9,25 @@ Open Scope Z_scope.
 
 Ltac conjs := repeat match goal with |- _ /\ _ => split end.
 
+(* the admissible parameters are those the generated guard lets through: turn `g_rejects p = false` into bounds *)
+Ltac acc :=
+  repeat match goal with
+  | H : unit_grid_rejects ?a ?b _ _ = false |- _ =>
+      assert (2 <= a /\ 2 <= b) as [? ?] by (unfold unit_grid_rejects in H; lia); clear H
+  | H : unit_triangle_rejects ?a ?b _ = false |- _ =>
+      assert (2 <= a /\ 2 <= b) as [? ?] by (unfold unit_triangle_rejects in H; lia); clear H
+  | H : torus_rejects ?a ?b _ = false |- _ =>
+      assert (3 <= a /\ 3 <= b) as [? ?] by (unfold torus_rejects in H; lia); clear H
+  | H : sphere_uv_rejects ?a ?b = false |- _ =>
+      assert (1 <= a /\ 3 <= b) as [? ?] by (unfold sphere_uv_rejects in H; lia); clear H
+  | H : cylinder_rejects ?a _ = false |- _ =>
+      assert (3 <= a) by (unfold cylinder_rejects in H; lia); clear H
+  | H : ring_rejects ?a _ ?k = false |- _ =>
+      assert (3 <= a /\ 1 <= k) as [? ?] by (unfold ring_rejects in H; lia); clear H
+  | H : flat_ring_rejects ?a ?k = false |- _ =>
+      assert (1 <= a /\ 1 <= k) as [? ?] by (unfold flat_ring_rejects in H; lia); clear H; assert (1 <= a * k) by nia
+  end.
+
 (* what is asked of the index lists of a surface generator, short of its global topology *)
 Definition well_formed (V : Z) (F : list (list Z)) : Prop :=
   in_range V F /\ all_used V F /\ faces_simple F /\ oriented_manifold F /\ faces_edge_disjoint F.
@@ -17,18 +35,39 @@ Definition well_formed (V : Z) (F : list (list Z)) : Prop :=
 Lemma wf_intro V F : in_range V F -> all_used V F -> faces_simple F -> oriented_manifold F -> well_formed V F.
 Proof. intros. repeat split; auto. apply oriented_manifold_edge_disjoint; auto. Qed.
 
+(* ---------------------------------------------------------------- 0. the admissible parameters are the ones the code accepts:
+   what each generated guard (`if ...: raise`) rejects, exactly.  All theorems below are stated for `g_rejects p = false`. *)
+Lemma all_rejects :
+  (forall nu nv t u, unit_grid_rejects nu nv t u = true <-> nu < 2 \/ nv < 2) /\
+  (forall nu nv u, unit_triangle_rejects nu nv u = true <-> nu < 2 \/ nv < 2) /\
+  (forall M m t, torus_rejects M m t = true <-> M < 3 \/ m < 3) /\
+  (forall n L, sphere_uv_rejects n L = true <-> n < 1 \/ L < 3) /\
+  (forall N c, cylinder_rejects N c = true <-> N < 3) /\
+  (forall N o k, ring_rejects N o k = true <-> N < 3 \/ k < 1) /\
+  (forall N k, flat_ring_rejects N k = true <-> N < 1 \/ k < 1) /\
+  (* the constant-table generators and the polyline generators reject nothing *)
+  triangle_rejects = false /\ (forall t, quad_rejects t = false) /\ (forall v, tetrahedron_rejects v = false) /\
+  (forall c t v, hexahedron_rejects c t v = false) /\ (forall c t, axis_aligned_cube_rejects c t = false) /\
+  (forall c v, hexahedron_4pts_rejects c v = false) /\ (forall u, icosahedron_rejects u = false) /\
+  octahedron_rejects = false /\ dodecahedron_rejects = false /\
+  (forall n l, chain_of_vertices_rejects n l = false) /\ (forall n, vector_field_rejects n = false).
+Proof.
+  conjs; intros; try reflexivity;
+    unfold unit_grid_rejects, unit_triangle_rejects, torus_rejects, sphere_uv_rejects, cylinder_rejects, ring_rejects, flat_ring_rejects; lia.
+Qed.
+
 (* ---------------------------------------------------------------- 1. indices in range, every vertex used, simple faces,
    no directed edge twice (consistently oriented edge-manifold; no face repeated, even rotated) *)
 Lemma all_well_formed :
-  (forall nu nv t u, 2 <= nu -> 2 <= nv -> well_formed (unit_grid_nverts nu nv t u) (unit_grid_faces nu nv t u)) /\
-  (forall nu nv u, 2 <= nu -> 2 <= nv -> well_formed (unit_triangle_nverts nu nv u) (unit_triangle_faces nu nv u)) /\
-  (forall M m t, 3 <= M -> 3 <= m -> well_formed (torus_nverts M m t) (torus_faces M m t)) /\
-  (forall n L, 1 <= n -> 3 <= L -> well_formed (sphere_uv_nverts n L) (sphere_uv_faces n L)) /\
-  (forall N c, 3 <= N -> well_formed (cylinder_nverts N c) (cylinder_faces N c)) /\
-  (forall N o k, 3 <= N -> 1 <= k -> well_formed (ring_nverts N o k) (ring_faces N o k)) /\
-  (forall N k, 1 <= N * k -> well_formed (flat_ring_nverts N k) (flat_ring_faces N k)).
+  (forall nu nv t u, unit_grid_rejects nu nv t u = false -> well_formed (unit_grid_nverts nu nv t u) (unit_grid_faces nu nv t u)) /\
+  (forall nu nv u, unit_triangle_rejects nu nv u = false -> well_formed (unit_triangle_nverts nu nv u) (unit_triangle_faces nu nv u)) /\
+  (forall M m t, torus_rejects M m t = false -> well_formed (torus_nverts M m t) (torus_faces M m t)) /\
+  (forall n L, sphere_uv_rejects n L = false -> well_formed (sphere_uv_nverts n L) (sphere_uv_faces n L)) /\
+  (forall N c, cylinder_rejects N c = false -> well_formed (cylinder_nverts N c) (cylinder_faces N c)) /\
+  (forall N o k, ring_rejects N o k = false -> well_formed (ring_nverts N o k) (ring_faces N o k)) /\
+  (forall N k, flat_ring_rejects N k = false -> well_formed (flat_ring_nverts N k) (flat_ring_faces N k)).
 Proof.
-  conjs; intros.
+  conjs; intros; acc.
   - apply wf_intro; [apply grid_in_range | apply grid_all_used | apply grid_faces_simple | apply grid_oriented_manifold]; auto.
   - apply wf_intro; [apply tri_in_range | apply tri_all_used | apply tri_faces_simple | apply tri_oriented_manifold]; auto.
   - apply wf_intro; [apply torus_in_range | apply torus_all_used | apply torus_faces_simple | apply torus_oriented_manifold]; auto.
@@ -45,19 +84,19 @@ Qed.
 
 (* ---------------------------------------------------------------- 2. element counts as functions of the parameters *)
 Lemma all_counts :
-  (forall nu nv t u, 2 <= nu -> 2 <= nv ->
+  (forall nu nv t u, unit_grid_rejects nu nv t u = false ->
      unit_grid_nverts nu nv t u = nu * nv /\ zlen (unit_grid_faces nu nv t u) = (if t then 2 else 1) * ((nu - 1) * (nv - 1))) /\
-  (forall nu nv u, 1 <= nv <= nu -> unit_triangle_nverts nu nv u = (nv * (nv + 1)) / 2) /\
-  (forall nu nv u, 1 <= nu -> 0 <= nv -> unit_triangle_nverts nu nv u = roff nu nv) /\
-  (forall M m t, 0 <= M -> 0 <= m -> torus_nverts M m t = M * m /\ zlen (torus_faces M m t) = (if t then 2 else 1) * (M * m)) /\
-  (forall n L, 1 <= n -> 0 <= L -> sphere_uv_nverts n L = n * L + 2 /\ zlen (sphere_uv_faces n L) = (n + 1) * L) /\
-  (forall N c, 0 <= N -> cylinder_nverts N c = 2 * N + (if c then 2 else 0) /\ zlen (cylinder_faces N c) = (if c then 4 else 2) * N) /\
-  (forall N o k, 1 <= N * k -> ring_nverts N o k = N * k + (if o then 2 else 1) /\ zlen (ring_faces N o k) = N * k) /\
-  (forall N k, 0 <= N * k -> flat_ring_nverts N k = N * k + 2 /\ zlen (flat_ring_faces N k) = N * k) /\
+  (forall nu nv u, unit_triangle_rejects nu nv u = false -> nv <= nu -> unit_triangle_nverts nu nv u = (nv * (nv + 1)) / 2) /\
+  (forall nu nv u, unit_triangle_rejects nu nv u = false -> unit_triangle_nverts nu nv u = roff nu nv) /\
+  (forall M m t, torus_rejects M m t = false -> torus_nverts M m t = M * m /\ zlen (torus_faces M m t) = (if t then 2 else 1) * (M * m)) /\
+  (forall n L, sphere_uv_rejects n L = false -> sphere_uv_nverts n L = n * L + 2 /\ zlen (sphere_uv_faces n L) = (n + 1) * L) /\
+  (forall N c, cylinder_rejects N c = false -> cylinder_nverts N c = 2 * N + (if c then 2 else 0) /\ zlen (cylinder_faces N c) = (if c then 4 else 2) * N) /\
+  (forall N o k, ring_rejects N o k = false -> ring_nverts N o k = N * k + (if o then 2 else 1) /\ zlen (ring_faces N o k) = N * k) /\
+  (forall N k, flat_ring_rejects N k = false -> flat_ring_nverts N k = N * k + 2 /\ zlen (flat_ring_faces N k) = N * k) /\
   (forall n l, 1 <= n -> chain_of_vertices_nverts n l = n /\ zlen (chain_of_vertices_edges n l) = (if l then n else n - 1)) /\
   (forall n, 0 <= n -> vector_field_nverts n = 2 * n /\ zlen (vector_field_edges n) = n).
 Proof.
-  conjs; intros; conjs.
+  conjs; intros; acc; conjs.
   - apply grid_nverts; lia.
   - apply grid_nfaces; lia.
   - apply tri_nverts_full; lia.
@@ -84,24 +123,24 @@ Definition disk_surface (V : Z) (F : list (list Z)) (c : list Z) : Prop :=
   border_is_cycle F c /\ connected V F /\ euler V F = 1.
 
 Lemma all_topology :
-  (forall nu nv t u, 2 <= nu -> 2 <= nv ->
+  (forall nu nv t u, unit_grid_rejects nu nv t u = false ->
      disk_surface (unit_grid_nverts nu nv t u) (unit_grid_faces nu nv t u) (grid_border_cycle nu nv)) /\
-  (forall M m t, 3 <= M -> 3 <= m -> closed_surface (torus_nverts M m t) (torus_faces M m t) 0) /\
-  (forall n L, 1 <= n -> 3 <= L -> closed_surface (sphere_uv_nverts n L) (sphere_uv_faces n L) 2) /\
-  (forall N, 3 <= N -> closed_surface (cylinder_nverts N true) (cylinder_faces N true) 2) /\
-  (forall N, 3 <= N ->
+  (forall M m t, torus_rejects M m t = false -> closed_surface (torus_nverts M m t) (torus_faces M m t) 0) /\
+  (forall n L, sphere_uv_rejects n L = false -> closed_surface (sphere_uv_nverts n L) (sphere_uv_faces n L) 2) /\
+  (forall N, cylinder_rejects N true = false -> closed_surface (cylinder_nverts N true) (cylinder_faces N true) 2) /\
+  (forall N, cylinder_rejects N false = false ->
      border_is_cycles (cylinder_faces N false) [map (cyl_bottom N) (zrange N); map (cyl_top N) (zrange N)] /\
      connected (cylinder_nverts N false) (cylinder_faces N false) /\
      euler (cylinder_nverts N false) (cylinder_faces N false) = 0) /\
-  (forall N k, 3 <= N -> 1 <= k ->
+  (forall N k, ring_rejects N true k = false ->
      disk_surface (ring_nverts N true k) (ring_faces N true k) (map (fun t => t) (zrange (N * k + 2))) /\
      disk_surface (ring_nverts N false k) (ring_faces N false k) (map (fun t => t + 1) (zrange (N * k)))) /\
-  (forall N k, 1 <= N * k ->
+  (forall N k, flat_ring_rejects N k = false ->
      disk_surface (flat_ring_nverts N k) (flat_ring_faces N k) (map (fun t => t) (zrange (N * k + 2)))) /\
-  (forall nu nv u, 2 <= nu -> 2 <= nv ->
+  (forall nu nv u, unit_triangle_rejects nu nv u = false ->
      disk_surface (unit_triangle_nverts nu nv u) (unit_triangle_faces nu nv u) (tri_border_cycle nu nv)).
 Proof.
-  conjs; intros; unfold disk_surface, closed_surface; conjs.
+  conjs; intros; acc; unfold disk_surface, closed_surface; conjs.
   - apply grid_border; auto.
   - apply grid_connected; auto.
   - apply grid_euler; auto.
@@ -133,15 +172,15 @@ Qed.
 
 (* ---------------------------------------------------------------- 3b. every vertex umbrella is one fan (vertex manifoldness) *)
 Lemma all_vertex_manifold :
-  (forall nu nv t u, 2 <= nu -> 2 <= nv -> vertex_manifold (unit_grid_nverts nu nv t u) (unit_grid_faces nu nv t u)) /\
-  (forall nu nv u, 2 <= nu -> 2 <= nv -> vertex_manifold (unit_triangle_nverts nu nv u) (unit_triangle_faces nu nv u)) /\
-  (forall M m t, 3 <= M -> 3 <= m -> vertex_manifold (torus_nverts M m t) (torus_faces M m t)) /\
-  (forall n L, 1 <= n -> 3 <= L -> vertex_manifold (sphere_uv_nverts n L) (sphere_uv_faces n L)) /\
-  (forall N c, 3 <= N -> vertex_manifold (cylinder_nverts N c) (cylinder_faces N c)) /\
-  (forall N o k, 3 <= N -> 1 <= k -> vertex_manifold (ring_nverts N o k) (ring_faces N o k)) /\
-  (forall N k, 1 <= N * k -> vertex_manifold (flat_ring_nverts N k) (flat_ring_faces N k)).
+  (forall nu nv t u, unit_grid_rejects nu nv t u = false -> vertex_manifold (unit_grid_nverts nu nv t u) (unit_grid_faces nu nv t u)) /\
+  (forall nu nv u, unit_triangle_rejects nu nv u = false -> vertex_manifold (unit_triangle_nverts nu nv u) (unit_triangle_faces nu nv u)) /\
+  (forall M m t, torus_rejects M m t = false -> vertex_manifold (torus_nverts M m t) (torus_faces M m t)) /\
+  (forall n L, sphere_uv_rejects n L = false -> vertex_manifold (sphere_uv_nverts n L) (sphere_uv_faces n L)) /\
+  (forall N c, cylinder_rejects N c = false -> vertex_manifold (cylinder_nverts N c) (cylinder_faces N c)) /\
+  (forall N o k, ring_rejects N o k = false -> vertex_manifold (ring_nverts N o k) (ring_faces N o k)) /\
+  (forall N k, flat_ring_rejects N k = false -> vertex_manifold (flat_ring_nverts N k) (flat_ring_faces N k)).
 Proof.
-  conjs; intros.
+  conjs; intros; acc.
   - apply grid_vertex_manifold; auto.
   - apply tri_vertex_manifold; auto.
   - apply torus_vertex_manifold; auto.
@@ -195,7 +234,7 @@ Qed.
 (* ---------------------------------------------------------------- 5. switches are honoured as named *)
 Lemma all_switches :
   (* triangulate: all faces are triangles, resp. quads *)
-  (forall nu nv (t u : bool), 2 <= nu -> 2 <= nv -> Forall (fun f : list Z => zlen f = if t then 3 else 4) (unit_grid_faces nu nv t u)) /\
+  (forall nu nv (t u : bool), unit_grid_rejects nu nv t u = false -> Forall (fun f : list Z => zlen f = if t then 3 else 4) (unit_grid_faces nu nv t u)) /\
   (forall M m (t : bool), Forall (fun f : list Z => zlen f = if t then 3 else 4) (torus_faces M m t)) /\
   (forall t : bool, Forall (fun f : list Z => zlen f = if t then 3 else 4) (quad_faces t)) /\
   (forall c t : bool, Forall (fun f : list Z => zlen f = if t then 3 else 4) (hexahedron_faces c t false)) /\
@@ -206,7 +245,7 @@ Lemma all_switches :
   (forall c t, axis_aligned_cube_faces c t = hexahedron_faces c t false /\ axis_aligned_cube_cells c t = hexahedron_cells c t false) /\
   (forall c v, hexahedron_4pts_faces c v = hexahedron_faces c false v /\ hexahedron_4pts_cells c v = hexahedron_cells c false v) /\
   (* ring: fewer than three triangles are rejected, exactly *)
-  (forall N o k, ring_rejects N o k = true <-> N < 3) /\
+  (forall N o k, ring_rejects N o k = true <-> N < 3 \/ k < 1) /\
   (* loop: the closed chain has the extra edge from the last point to the first *)
   (forall n, chain_of_vertices_edges n false = map (fun i => [i; i + 1]) (zrange (n - 1))) /\
   (forall n, chain_of_vertices_edges n true = map (fun i => [i; (i + 1) mod n]) (zrange n)) /\
@@ -214,7 +253,7 @@ Lemma all_switches :
   (* dual: one face per vertex of the input (its ring of faces), one vertex per face *)
   (forall v2f nV nF, 0 <= nV -> 0 <= nF -> dual_mesh_nverts v2f nV nF = nF /\ dual_mesh_faces v2f nV nF = map v2f (zrange nV)).
 Proof.
-  conjs; intros; conjs.
+  conjs; intros; acc; conjs.
   - apply Forall_forall. intros f Hf. apply grid_face_In in Hf as [i [j [_ [_ Hf]]]]; try lia.
     unfold gcell in Hf. destruct t; simpl in Hf; split_or Hf; subst f; reflexivity.
   - apply Forall_forall. intros f Hf. apply torus_face_In in Hf as [i [j [_ [_ Hf]]]].
@@ -240,8 +279,8 @@ Lemma all_on_surface :
   (forall n L center radius, Forall (fun p => dist2 p center = (radius * radius)%R) (sphere_uv_coords Rops n L center radius)) /\
   (forall M m R0 r t, Forall (on_torus R0 r) (torus_coords Rops M m R0 r t)) /\
   (forall center radius u, Forall (fun p => dist2 p center = (radius * radius)%R) (icosahedron_coords Rops center radius u)) /\
-  (forall nu nv t u, 2 <= nu -> 2 <= nv -> Forall in_unit_square (unit_grid_coords Rops nu nv t u)) /\
-  (forall nu nv u, 2 <= nu -> 2 <= nv -> Forall in_unit_square (unit_triangle_coords Rops nu nv u)) /\
+  (forall nu nv t u, unit_grid_rejects nu nv t u = false -> Forall in_unit_square (unit_grid_coords Rops nu nv t u)) /\
+  (forall nu nv u, unit_triangle_rejects nu nv u = false -> Forall in_unit_square (unit_triangle_coords Rops nu nv u)) /\
   (forall P0 P1 P2, triangle_coords Rops P0 P1 P2 = [P0; P1; P2]) /\
   (forall P0 P1 P2 t, quad_coords Rops P0 P1 P2 t = [P0; P1; vsub Rops (vadd Rops P2 P1) P0; P2]) /\
   (forall P1 P2 P3 P4 v, tetrahedron_coords Rops P1 P2 P3 P4 v = [P1; P2; P3; P4]) /\
@@ -254,7 +293,7 @@ Lemma all_on_surface :
      exists ringpts, cylinder_coords Rops P1 P2 radius N caps = ringpts ++ (if caps then [P1; P2] else []) /\
        Forall (fun p => exists P, (P = P1 \/ P = P2) /\ dot3 (vsub Rops p P) a = 0%R /\ dist2 p P = (radius * radius)%R) ringpts) /\
   (forall N d k, exists rim, flat_ring_coords Rops N d k = (0, 0, 0)%R :: rim /\ Forall on_unit_circle rim) /\
-  (forall n (radius : R) b, 1 <= n -> Forall (fun p => dot3 p p = (radius * radius)%R) (sphere_fibonacci_coords Rops n radius b)) /\
+  (forall n (radius : R) b, Forall (fun p => dot3 p p = (radius * radius)%R) (sphere_fibonacci_coords Rops n radius b)) /\
   (forall k (center : vec R) (radius : R) v, (0 < dot3 (vsub Rops v center) (vsub Rops v center))%R ->
      dist2 (icosphere_project Rops k center radius v) center = (radius * radius)%R) /\
   (forall k (center : vec R) (radius : R),
@@ -262,7 +301,7 @@ Lemma all_on_surface :
      icosphere_base_coords Rops k center radius = icosahedron_coords Rops center radius false /\
      icosphere_rounds k = k /\ icosphere_loop_passes = 1).
 Proof.
-  conjs; intros.
+  conjs; intros; acc.
   - apply sphere_uv_on_sphere.
   - apply torus_on_torus.
   - apply icosahedron_on_sphere.
@@ -276,7 +315,8 @@ Proof.
   - apply ring_rim_on_circle.
   - apply cylinder_on_surface; auto.
   - apply flat_ring_rim_on_circle.
-  - apply sphere_fibonacci_on_sphere; auto.
+  - destruct (Z_lt_le_dec n 1) as [L|L]; [|apply sphere_fibonacci_on_sphere; auto].
+    unfold sphere_fibonacci_coords. cbv zeta. rewrite zrange_nonpos by lia. constructor.
   - apply icosphere_project_on_sphere; auto.
   - apply icosphere_base.
 Qed.
@@ -309,7 +349,7 @@ Example ex_grid : unit_grid_faces 2 3 false false = [[0; 1; 4; 3]; [1; 2; 5; 4]]
 Proof. vm_compute. auto. Qed.
 Example ex_grid_wf : well_formed 6 (unit_grid_faces 2 3 false false) /\ euler 6 (unit_grid_faces 2 3 false false) = 1.
 Proof.
-  split; [apply (proj1 all_well_formed 2 3 false false); lia|].
+  split; [apply (proj1 all_well_formed 2 3 false false); reflexivity|].
   apply (grid_euler 2 3 false false); lia.
 Qed.
 Example ex_triangle : unit_triangle_faces 2 3 false = [[0; 1; 2]; [1; 4; 2]; [1; 3; 4]] /\ unit_triangle_nverts 2 3 false = 5.
